@@ -192,6 +192,22 @@ def discharge_call(run, body, site):
         if all(_is_len(x) or (_const_int(x) is not None and _const_int(x) < (1 << 20)) for x in parts):
             return True, "capacity is a (sum of) length(s) of existing collections / a small constant"
         return False, "with_capacity(%s): capacity not bounded by existing collection sizes" % term_s(a)[:60]
+    if name in ("std::vec::Vec::remove",) and len(args) == 2 and body.kind == "closure" and strip(args[1]) == ("arg", 2):
+        # position(..).map(|index| vec.remove(index)): the closure runs only on the Some(index) of a position() over the same vector
+        crate = body.crate
+        for pb in crate.real_bodies():
+            for cs in pb.calls():
+                if cname(cs.node) == "std::option::Option::map" and len(cs.node["args"]) == 2 and arg_ty(pb, cs.node["args"][1]).get("closure") == body.name:
+                    recv = strip(term_of(pb, cs.node["args"][0]))
+                    clo = strip(term_of(pb, cs.node["args"][1]))
+                    if recv[0] == "call" and recv[1] == "std::iter::Iterator::position" and clo[0] == "agg":
+                        it = strip(recv[2][0])
+                        vec_in_closure = strip(args[0])
+                        captured = [strip(v) for v in clo[3].values()]
+                        if it[0] == "call" and it[1] in ("core::slice::iter", "std::slice::iter") and any(same_place_term(it[2][0], c) for c in captured) and \
+                                vec_in_closure[0] == "proj" and vec_in_closure[1] == ("arg", 1):
+                            return True, "D2: index is the Some payload of position() over the captured vector, handed to this closure by Option::map"
+        return False, "Vec::remove(index) in a closure whose index is not tied to a position() over the same vector"
     if name in ("std::vec::Vec::remove", "std::vec::Vec::swap_remove") and len(args) == 2:
         pos = _some_payload_of(args[1], ("std::iter::Iterator::position",))
         if pos is not None and pos[2]:
